@@ -69,3 +69,43 @@ func VF_C18_Realtime() {
 		vf.Tag("_errors", a.errText+"|"+b.errText) // e.g. a push refused after waiting for the lock longer than the lease; it is retried
 	}
 }
+
+
+// VF_C13_TopicRefused (C13): a realtime client whose notification-topic
+// subscription is refused by the broker at the moment it becomes subscribed.
+// The refusal is reported to its error handler, but the subscription itself
+// took place on the server: the client's first state must still be the
+// datatype's state at the log position it subscribed at, the transition to
+// subscribed is reported once, and a later explicit Sync keeps it current.
+func VF_C13_TopicRefused() {
+	w := vfNewWorld()
+	br := &vfBroker{}
+	w.mq.broker = br
+	w.seedCollection(vfCol, 1)
+	a := w.newRealtimePeer("a", vfCUIDx, br)
+	a.cnt = a.cli.CreateCounter(vfKey, a.handlers())
+	vf.Quiesce()
+	_, _ = a.cnt.IncreaseBy(1)
+	_, _ = a.cnt.IncreaseBy(10)
+	vf.Quiesce()
+	bmq := &vfMqtt{broker: br, refuse: true}
+	b := &vfPeer{name: "b", tr: &vfTransport{w: w, wire: true}}
+	b.cli = orda.VFNewRealtimeClient(vfCol, "b", vfCUIDy, b.tr, bmq)
+	vf.Assert(orda.VFRegister(b.cli) == nil, "client registers")
+	if vf.Choice("entry", 2) == 0 {
+		b.cnt = b.cli.SubscribeCounter(vfKey, b.handlers())
+	} else {
+		b.cnt = b.cli.SubscribeOrCreateCounter(vfKey, b.handlers())
+	}
+	vf.Quiesce()
+	vf.Reach("subscribed")
+	vf.Assert(orda.VFDatatypeState(b.cnt) == model.StateOfDatatype_SUBSCRIBED, "C13 the subscription took place")
+	vf.Assert(b.cnt.Get() == 11, "C13 a new subscriber's first state equals the datatype's state at the log position it subscribed at")
+	vf.Assert(countState(b.states, model.StateOfDatatype_SUBSCRIBED) == 1, "C13 the transition to subscribed is reported exactly once")
+	vf.Assert(b.errs > 0, "C16 the refused topic subscription is reported through the error handler")
+	_, _ = a.cnt.IncreaseBy(100)
+	vf.Quiesce()
+	vf.Assert(b.cli.Sync() == nil, "C16 the client remains usable")
+	vf.Quiesce()
+	vf.Assert(b.cnt.Get() == 111 && a.cnt.Get() == 111, "C05 an explicit sync brings the client up to date")
+}
